@@ -275,6 +275,22 @@ def candidates(cfg, model):
     add('set_relocated_name', name='RELOCATEDDIRNAME', rr_name='relo')
     if model.rr_moved:
         add('set_relocated_name', name='OTHER', rr_name='other')
+    # taken names that are not ASCII in the second / third namespace (the stored identifier differs from the UTF-8 path component)
+    def nonascii(tree):
+        for pth in sorted(tree or ()):
+            if any(ord(ch) > 127 for ch in pth):
+                return pth
+        return None
+    for ns_key, taken in (('udf', nonascii(model.udf)), ('joliet', nonascii(model.jol))):
+        if not taken:
+            continue
+        other = dict(jkw) if ns_key == 'udf' else {}
+        add('add_fp', content='c1', iso_path=new_iso, **dict(other, **dict({ns_key + '_path': taken}, **rrn('n'))))
+        add('add_directory', iso_path='/NEWDIR', **dict({'joliet_path': '/newdir'} if (J and ns_key == 'udf') else {}, **dict({ns_key + '_path': taken}, **rrn('n'))))
+        if iso_file:
+            add('add_hard_link', iso_old_path=iso_file, **{ns_key + '_new_path': taken})
+        if rr and ns_key == 'udf':
+            add('add_symlink', symlink_path='/SYM.;1', rr_symlink_name='sym', rr_path='t', udf_symlink_path=taken, udf_target='t')
     add('new')
     add('open_fp_garbage')
     add('modify_file_in_place_nobacking', iso_path=iso_file or '/NOPE.;1')
